@@ -70,7 +70,7 @@ def run(ctx: core.Ctx):
     b2check.run_b2(ctx, lambda rng, th: [(gen.conn_relog(rng), rng.randrange(10 ** 9), 0) for _ in range(3000 if th else 80)], ["C20re"],
                    label="a second session on the same connection object with another log size (monitor only)", accept=False)
     T = core.tables()
-    b2check.run_b2(ctx, lambda rng, th: [(gen.api_log(rng, T), rng.randrange(10 ** 9), 0) for _ in range(2000 if th else 60)], ["C20api"],
+    b2check.run_b2(ctx, lambda rng, th: [(gen.api_log(rng, T), rng.randrange(10 ** 9), 0) for _ in range(600 if th else 60)], ["C20api"],
                    label="the log handed out by a YncaApi object, also one used for connection_check() before (monitor only)", accept=False)
     b2check.run_b2(ctx, jobs_misc, ["C20"], label="log requested from inside a callback / after a link failure or close() (monitor only)", accept=False)
     ctx.info["rule"] = ("sessions shorter and longer than N for N in {0,1,2,5,100}, log snapshots taken at random points by a concurrent caller and compared with the port's own record; each under a seeded schedule with extra line-level preemptions; a case = one schedule; "
